@@ -17,6 +17,8 @@
 (* Clause OutOfScope (the C02 violation): a command for a path that is in  *)
 (*   none of ml, mr (and, for a listing command, pe).  Recorded with the   *)
 (*   rule the path fails (RuleOfPath).                                     *)
+(* Clause RetrievedAgain (violation, rule "Tries"): a second RETR for the   *)
+(*   same path (every crawl runs with --tries 1).                          *)
 (* Clause KindMismatch (drift only): the path is in scope but is asked for *)
 (*   with the other kind of command.                                       *)
 (* Requesting LESS than the reference is never judged here.                *)
@@ -26,8 +28,8 @@ EXTENDS FtpScope, IOUtils, TLCExt
 Batch == JsonDeserialize(IOEnv.TRACE_FILE)
 NT    == Len(Batch)
 
-VARIABLES tid, l
-mvars == <<vars, tid, l>>
+VARIABLES tid, l, got
+mvars == <<vars, tid, l, got>>
 
 Ev  == Batch[tid].ev
 Cur == Ev[l]
@@ -38,9 +40,12 @@ MInit ==
   /\ sc = Batch[tid].hdr
   /\ ref = RefOf(Batch[tid].hdr)
   /\ tbl = <<>> /\ wk = <<>> /\ cache = {} /\ cmds = {}
+  /\ got = {}
 
+\* got = the paths for which a RETR was seen
 MNext ==
   /\ l <= Len(Ev) /\ l' = l + 1
+  /\ got' = IF Cur.e = "cmd" /\ Cur.c = "RETR" THEN got \cup {Cur.p} ELSE got
   /\ UNCHANGED <<tid, vars>>
 
 MSpec == MInit /\ [][MNext]_mvars
@@ -50,8 +55,15 @@ MSpec == MInit /\ [][MNext]_mvars
 ASSUME \A i \in 1..NT : TLCSet(i, 0) /\ TLCSet(NT + i, {}) /\ TLCSet(2 * NT + i, 0) /\ TLCSet(3 * NT + i, 0)
 
 IsCmd == l <= Len(Ev) /\ Cur.e = "cmd"
+\* Clause RetrievedAgain (rule "Tries"): every crawl runs with --tries 1 and every file has one URL, so a second
+\* RETR for the same path means that a URL was requested again after its tries were used up
+Again == IsCmd /\ Cur.c = "RETR" /\ Cur.p \in got
 Record ==
   /\ IF TLCGet(tid) < l THEN TLCSet(tid, l) ELSE TRUE
+  /\ IF Again /\ InScope(ref, Cur.c, Cur.p)
+     THEN /\ TLCSet(NT + tid, TLCGet(NT + tid) \cup {9})
+          /\ (IF TLCGet(2 * NT + tid) = 0 THEN TLCSet(2 * NT + tid, l) ELSE TRUE)
+     ELSE TRUE
   /\ IF IsCmd /\ ~InScope(ref, Cur.c, Cur.p)
      THEN /\ TLCSet(NT + tid, TLCGet(NT + tid) \cup {RuleOfPath(sc, Cur.p)})
           /\ (IF TLCGet(2 * NT + tid) = 0 THEN TLCSet(2 * NT + tid, l) ELSE TRUE)
